@@ -43,6 +43,9 @@ C = {
  "C10": ("model_checking", "5.6,6/C10", "TLA+ spec ZipStream.tla (cursor/drain/visitor model + spec mutants, TLC) + trace validation of the streaming reader (Trace_Stream.tla, expectations from ZipOpen!EntryView)",
    "OnRecordBoundary/EndAtDirectory/VisitOrder hold over all entry lists and consumption histories of the model (no_drain, drain_one_short, meta_skipped mutants are found); binding: archives from the crate's writer and the independent builder are walked front to back over short-reading sources with per-entry consumption plans {0,1,half,all-1,all,EOF,beyond}; the stream offset at each header parse, each entry's metadata and content prefix (= what the seekable reader must report for the lexed layout), the end-of-entries signal, errors for encrypted/data-descriptor entries, and the visitor's file + metadata callbacks are validated.",
    "archives with >= 1 entry and no prefix/gaps, as the property states"),
+ "C20": ("model_checking", "5.7,6/C20", "TLA+ spec Clones.tla (all interleavings of N handles; spec mutants; TLC) + trace validation of real clones on one thread and across OS threads (Trace_Clones.tla)",
+   "PerHandleView/CacheIdempotent hold over every interleaving of 3 handles x 2 entries in the model (shared_reader, two_step_cache mutants are found); binding: every interleaving of short per-handle scripts for 2-3 handles, random long interleavings for up to 6 handles, and 4-16 OS threads with randomised yields inside the cloned reader; every open must report the byte-determined data start (the only shared mutable cell) and every read the slice the handle would get alone; Send + Sync of the handle is a compile-time assertion in the harness (a failing build is reported as tool trouble naming it).",
+   "OS schedules are sampled; the exhaustive part is at API-call granularity"),
 }
 checks = []
 for pid in sorted(C):
